@@ -29,7 +29,7 @@ HEADER = ('From Coq Require Import List NArith. Import ListNotations.\n'
 CASE_TYPE = 'Case_C15.case'
 VERDICT = 'Case_C15.verdict'
 CLEAN_FOR_THOROUGH = ['theories/OptionsInv.vo', 'theories/OptionsMon.vo', 'theories/OptionsRefInv.vo',
-                      'theories/OptionsRefBat.vo']  # proofs only
+                      'theories/OptionsRefBat.vo', 'theories/OptionsRefRet.vo']  # proofs only
 PARALLEL = 16
 CHUNK = 300
 
@@ -662,9 +662,9 @@ EXHAUSTIVE_NOTE = ('all 108 batcher configurations over the probe values x 6 pro
                    'interleavings of two 3-call lists under one cache decorator object')
 ASSUMPTIONS = ['asyncio primitives (Queue, wait_for, Semaphore FIFO, call_later, shield) are modelled by the small reference '
                'semantics Options.bstep / buf_run on cancellation-free, failure-free scripts (tied to the full models '
-               'Buffer.v / Batcher.v: proved for the buffer and for the batcher with retention_timeout = 0 or while no '
-               'batch function returns; evaluated on every case otherwise)',
-               'virtual time: every instant is a multiple of 1/5 tick; ties between a library timer and a scripted event are '
+               'Buffer.v / Batcher.v by refinement theorems — flushes of the buffer, batch starts of the batcher, all '
+               'configurations and scripts; the per-caller answers of the batcher are compared by evaluation on every case)',
+               'virtual time: every instant is a multiple of 1/5 tick (clock resolution of the C15 sims: 1/64 tick); ties between a library timer and a scripted event are '
                'resolved as harness/vloop.py does (timer first); batch_timeout = 0 is outside the modelled class (the '
                'timed q.get() then expires within the same loop iteration as the call)',
                'a closed loop is never used again (loop ids are not reused by the harness) — plan_wf; buffer scripts hand '
@@ -687,16 +687,16 @@ LEVEL_TEXT = ('gen/T_Options.v lists, from the AST of the current source, the ke
               'from a batch containing the key, every loop equal to its solo run.  The small reference semantics is tied to '
               'the full component models: buffer_reference_refines_full_model (all timeouts, all scripts: Buffer.v on the '
               'translated script calls the function at the instants and with the sets of buf_run) and '
-              'batcher_reference_refines_full_model_ret0_partial / _nofin_partial (batch starts of Batcher.v = those of '
-              'Options.brun for every script when retention_timeout = 0, and for every configuration while no batch function '
-              'returns; by a simulation relation).  Tied to '
+              'batcher_reference_refines_full_model (all configurations, all scripts: the batch starts of Batcher.v on the '
+              'translated script are those of Options.brun; by simulation relations covering collection, semaphore hand-over, '
+              'shared keys, retained results and their expiry timers, and Batcher.advance\'s fuelled deadline loop).  Tied to '
               '/repo by running every option, alone and jointly, in all three forms on identical virtual-time scripts and '
               'comparing with the reference semantics inside Coq, by applying one options-form decorator object to two '
               'functions, and by running one decorated batcher on 1..3 loops successively / interleaved / in parallel threads.')
 LEVEL_NOTE = ('trusted: Coq kernel + vm_compute; no axioms; translator; virtual-time harness.  The reference semantics of buffer '
               'and batcher in Options.v are validated by the correspondence and compared with Buffer.v / Batcher.v on every '
-              'case; the refinement is PROVED for the buffer, and for the batcher except scripts where a batch function '
-              'returns while retention_timeout > 0 (retained results and expiry timers: evaluated only).  The components\' own '
+              'case; the refinement is PROVED for the buffer (function calls) and for the batcher (batch starts); the batcher\'s '
+              'per-caller answers are compared by evaluation only.  The components\' own '
               'properties are C03/C04/C07-C11.  Monitor fix found by proving completeness: the batch-size bound is '
               'max(1, max_batch_size) (max_batch_size = 0 hands over singletons).')
 TECHNIQUE = ('AST translation + Coq proof by computation over the generated finite option tables; generic product-construction '
